@@ -129,10 +129,19 @@ def git_fault_campaign(chk, b, rng, tier, scratch):
     small_m, small = build_small(rng, os.path.join(d, "small"))
     large_m, large = build_large(os.path.join(d, "large"))
     root = sorted(small_m.refs)[0]
+    # the same repository with refgroup configuration: every group costs further `git config` children
+    small_rg = os.path.join(d, "small-refgroups")
+    shutil.copytree(small, small_rg)
+    with open(os.path.join(small_rg, "config"), "a") as f:
+        f.write('[refgroup "tags"]\n\tinclude = refs/heads\n[refgroup "mine"]\n\tname = Mine\n'
+                '[refgroup "mine.a"]\n\tinclude = refs/heads\n[refgroup "mine.b"]\n\tincludeRegexp = refs/(tags|remotes)/.*\n'
+                '[refgroup "solo"]\n\tinclude = refs\n\texclude = refs/heads\n')
     targets = [
         ("small-json", small, ["--json", "--no-progress"]),
         ("small-table-root", small, ["-v", "--no-progress", "--branches", root]),
         ("large-json", large, ["--json", "--json-version=2", "--no-progress"]),
+        ("small-refgroups-json", small_rg, ["--json", "--json-version=2", "--no-progress"]),
+        ("small-refgroups-table-group-option", small_rg, ["-v", "--no-progress", "--include", "@mine", "--exclude", "@solo"]),
     ]
     jobs = []
     jid = 0
@@ -377,6 +386,21 @@ def other_faults(chk, b, rng, tier, small_m, small, sz, d):
             chk.violation("C10/output-fault/exit-0-although-report-could-not-be-written/ENOSPC/" +
                           ("json" if "--json" in fmt_args else "table"), {"argv": fmt_args, "written": got[:100]})
         chk.nontrivial(("output-fault", tuple(fmt_args)))
+        # stdout that accepts only the first N bytes (sealed memory file; N = every line boundary of the report): the report
+        # could not be written, so the run must fail - also when the failing write is not the first one
+        base_, sweep = R.output_limit_sweep(sz, small, fmt_args, tmpdir=d, max_points=60 if tier != "quick" else 30, rng=rng)
+        for n_, r_, w_ in sweep:
+            ofaults += 1
+            chk.count()
+            if r_.timed_out:
+                chk.inconc("watchdog in an output-limit run")
+            elif r_.rc == 0:
+                chk.violation("C10/output-fault/exit-0-although-report-could-not-be-written/limit/" +
+                              ("json" if "--json" in fmt_args else "table"),
+                              {"argv": fmt_args, "limit": n_, "accepted_bytes": w_, "report_length": len(base_)})
+            elif not r_.err.strip():
+                chk.violation("C10/output-fault/non-zero-exit-without-error-message", {"argv": fmt_args, "limit": n_})
+            chk.nontrivial(("output-limit", tuple(fmt_args), n_))
     chk.cov["output_fault_cases"] = ofaults
 
 
